@@ -5,6 +5,7 @@ Import ListNotations.
 Local Open Scope N_scope.
 
 Inductive cin :=
+| ITmplX (extra : list str) (s : str)    (* a template on a builder with own registrations besides the base set *)
 | ITmpl (k : claim) (s : str)                                   (* a template and what the case claims about it *)
 | ISpace (lim : N) (spaces : list N) (sample : list (N * bool)). (* unicode.IsSpace: all space runes < lim, and a sample *)
 
@@ -13,17 +14,23 @@ Definition c (k : claim) (s out out' : list N) (es : list (N * N)) : cin * obs :
   (ITmpl k s, Some (out, out', es)).
 (* the implementation panicked *)
 Definition cP (k : claim) (s : list N) : cin * obs := (ITmpl k s, None).
+(* builder with extra registrations: compared with the model under the extended function table *)
+Definition cx (extra : list (list N)) (s out out' : list N) (es : list (N * N)) : cin * obs :=
+  (ITmplX extra s, Some (out, out', es)).
+Definition cxP (extra : list (list N)) (s : list N) : cin * obs := (ITmplX extra s, None).
 Definition cspace (lim : N) (spaces : list N) (sample : list (N * bool)) : cin * obs :=
   (ISpace lim spaces sample, Some ([], [], [])).
 
 Definition model (i : cin) : obs :=
   match i with
+  | ITmplX extra s => obs_of (compile (ext_fs extra) s)
   | ITmpl _ s => obs_of (compile probe_fs s)
   | ISpace _ _ _ => Some ([], [], [])
   end.
 Definition oeqb : obs -> obs -> bool := obs_eqb.
 Definition check (i : cin) (o : obs) : bool :=
   match i with
+  | ITmplX _ s => C09_check KRaw s o
   | ITmpl k s => C09_check k s o
   | ISpace lim spaces sample =>
       list_eqb N.eqb (filter is_space (map N.of_nat (seq 0 (N.to_nat lim)))) spaces
